@@ -547,3 +547,59 @@ func vh_C11_roundtrip() {
 	vAssert(vC11Same(v, back), "roundtrip-decodes-to-an-equal-value")
 	vReach("roundtrip")
 }
+
+// vh_C11_history: encoding is a function of the current value: a value is
+// encoded, then a container nested inside it is changed in place (a field
+// set or deleted in a nested hash, an element replaced in a nested array, at
+// depth 1 or 2), and it is encoded again - the second text denotes the
+// current data, for json and for the msgpack route.
+func vh_C11_history() {
+	env := vEnvs(1)[0]
+	sym := func(n string) Sexp { return env.MakeSymbol(n) }
+	i := vInt64("i")
+	vAssume(i > -1000 && i < 1000)
+	num := &SexpInt{Val: i}
+	innermost, _ := MakeHash([]Sexp{sym("p"), &SexpInt{Val: 1}}, "hash", env)
+	inner, _ := MakeHash([]Sexp{sym("a"), &SexpInt{Val: 1}, sym("deep"), innermost}, "hash", env)
+	arr := &SexpArray{Val: []Sexp{&SexpInt{Val: 1}, &SexpInt{Val: 2}}, Env: env}
+	outer, _ := MakeHash([]Sexp{sym("in"), inner, sym("arr"), arr, sym("k"), &SexpInt{Val: 5}}, "hash", env)
+	var root Sexp = outer
+	if vChoice("root", 2) == 1 {
+		root = &SexpArray{Val: []Sexp{outer, &SexpInt{Val: 0}}, Env: env}
+	}
+	msgp := vChoice("codec", 2) == 1
+	encode := func() (Sexp, bool) {
+		if !msgp {
+			j, ok := vjParse(SexpToJson(root))
+			if !ok {
+				return nil, false
+			}
+			return decodeGoToSexpHelper(vjToGo(j), 0, env, false), true
+		}
+		by, _ := SexpToMsgpack(root)
+		back, err := MsgpackToSexp(by, env)
+		return back, err == nil
+	}
+	first, ok := encode()
+	vAssert(ok && vC11Same(root, first), "first-encoding-roundtrips")
+	switch vChoice("change", 6) {
+	case 0:
+		inner.HashSet(sym("b"), num)
+	case 1:
+		inner.HashSet(sym("a"), num)
+	case 2:
+		inner.HashDelete(sym("a"))
+	case 3:
+		arr.Val[1] = num
+	case 4:
+		innermost.HashSet(sym("p"), num)
+	default:
+		arr.Val = append(arr.Val, num)
+	}
+	second, ok2 := encode()
+	vAssert(ok2, "second-encoding-is-well-formed")
+	if ok2 {
+		vAssert(vC11Same(root, second), "second-encoding-denotes-the-current-data")
+	}
+	vReach("history")
+}
